@@ -201,3 +201,13 @@ package tree
 //@   flag treeop
 //@   requires t != nil
 //@   ensures [fresh_tree] result != nil && fresh(result)
+
+// Thin contracts of the enclosing functions (the workers above are verified on their own)
+//@ func tree.Compare
+//@   flag treeop
+//@   allocates chan, EdgeIndex, hashmap.HashMap
+//@   ensures [channel_or_error] result1 == nil ==> result0 != nil && !closed(result0)
+//@ func tree.CompareWeighted
+//@   flag treeop
+//@   allocates chan, EdgeIndex, hashmap.HashMap
+//@   ensures [channel_or_error] result1 == nil ==> result0 != nil && !closed(result0)
